@@ -481,10 +481,15 @@ def long_process_case(rng):
             with quiet():
                 ts = list(treeinput.export(p, "utf-8", quiet=True))
             if work:
-                ids = sorted(n.id for t in ts for n in trees.preorder(t))
-                probe = trees.Tree(trees.make_node_data())
-                # unrelated work: the next node is the (R + j)-th after the first node of the live sentences
-                todo = R - (probe.id - ids[0]) - 1 + rng.randint(0, len(ids) - 1)
+                nn = sum(1 for t in ts for n in trees.preorder(t))
+                jitter = rng.randint(0, nn - 1)
+                try:
+                    # unrelated work: the next node is the (R + j)-th after the first node of the live sentences
+                    ids = sorted(n.id for t in ts for n in trees.preorder(t))
+                    probe = trees.Tree(trees.make_node_data())
+                    todo = R - (probe.id - ids[0]) - 1 + jitter
+                except Exception:
+                    todo = R - nn + jitter          # identities that are not numbers: about R constructions
                 for _ in range(max(todo, 0)):
                     trees.Tree(trees.make_node_data())
             res = []
